@@ -11,7 +11,6 @@ HEADER = ("From Coq Require Import ZArith List PrimFloat.\n"
           "From Hy Require Import Base.Num Model.Crps.")
 NAN = float("nan")
 NAMES = ["crps", "reliability", "resolution", "uncertainty", "potential"]
-COLS = ["freq", "a", "b", "g", "rank", "reliability", "crps_potential"]
 
 
 # ----------------------------------------------------------------------------
@@ -82,24 +81,30 @@ def gen_case(rng, thorough):
         tag += "+nanrow"     # rows whose members are all missing are dropped too
         for _ in range(rng.randint(1, max(1, n // 3))):
             ens[rng.randrange(n)] = [NAN] * m
-    return {"obs": obs, "ens": ens, "tag": tag, "kind": kind}
+    # the documented input forms: obs as [n] or [n,1] array
+    form = "column" if (n >= 2 and rng.random() < 0.15) else "flat"
+    return {"obs": obs, "ens": ens, "tag": tag, "kind": kind, "obsform": form}
 
 
 # ----------------------------------------------------------------------------
 # implementation
 
-def run_impl(obs, ens):
+def run_impl(obs, ens, form="flat"):
     """public API; returns (decomposition[5], table rows) or None on ValueError"""
     from hydrodiy.stat import metrics
     o = np.array(obs, dtype=np.float64)
+    if form == "column" and len(obs) >= 2:
+        o = o.reshape(-1, 1)
     e = np.array(ens, dtype=np.float64).reshape(len(obs), -1)
     try:
         with np.errstate(all="ignore"):
             dec, tab = metrics.crps(o, e)
     except ValueError:
         return None
-    d = [float(dec[k]) for k in NAMES]
-    t = [[float(tab[c].iloc[j]) for c in COLS] for j in range(tab.shape[0])]
+    # by position: the labels are tied to the positions by the theorem
+    # C03_source_constants (labels re-extracted from the source)
+    d = [float(x) for x in np.asarray(dec.values, dtype=np.float64)]
+    t = [[float(x) for x in row] for row in np.asarray(tab.values, dtype=np.float64)]
     return d, t
 
 
@@ -255,7 +260,7 @@ def signature(case, out):
     n, m = len(case["obs"]), len(case["ens"][0])
     ncl = 0 if n == 1 else 1 if n == 2 else 2 if n < 10 else 3
     mcl = m if m <= 3 else 4 if m <= 12 else 5
-    return (case["tag"], case["kind"], ncl, mcl, out is None)
+    return (case["tag"], case["kind"], ncl, mcl, out is None, case.get("obsform", "flat"))
 
 
 def run(ctx):
@@ -263,7 +268,8 @@ def run(ctx):
                 "(64 thorough)} members x values on a dyadic lattice / in {-1,-0,0,1} / Gaussian with scale "
                 "1e-3..1e6 and offsets / log-normal / 1e150 (overflow) x shape: plain, every observation below "
                 "or above its whole ensemble, constant ensembles, observation equal to a member, identical "
-                "forecasts, pre-sorted members x NaN observations (some/all) and all-NaN member rows; "
+                "forecasts, pre-sorted members x NaN observations (some/all) and all-NaN member rows x observations "
+                "passed as [n] or [n,1] array; "
                 "non-trivial = distinct (shape+missing tag, value kind, n class, m class, error) signature")
     ctx.trusted = cm.STD_TRUST + [
         "glibc qsort and the model's insertion sort give the same value sequence on NaN-free data",
@@ -277,14 +283,30 @@ def run(ctx):
     cm.use_impl()
     rng = ctx.rng
     ncases = ctx.scale(700, 9000)
-    corpus = cm.load_corpus(PID)
+    # a replay file given on the command line, then the corpus, then the recorded findings
+    corpus = []
+    rp = getattr(ctx, "replay", None)
+    if rp:
+        r = rp.get("replay", rp)
+        r = r.get("first_mismatch", r) if isinstance(r, dict) else r
+        if isinstance(r, dict) and "obs" in r and "ens" in r:
+            corpus.append({"obs": [float(x) for x in r["obs"]],
+                           "ens": [[float(x) for x in e] for e in r["ens"]], "tag": "replay"})
+            if "obs2" in r and "ens2" in r:
+                corpus.append({"obs": [float(x) for x in r["obs2"]],
+                               "ens": [[float(x) for x in e] for e in r["ens2"]], "tag": "replay-variant",
+                               "expected": r.get("expected2"), "tolerance": r.get("tolerance")})
+    corpus += cm.load_corpus(PID)
+    for k in cm.load_known():
+        if k["property"] == PID and isinstance(k.get("replay"), dict) and "obs" in k["replay"]:
+            corpus.append({"obs": k["replay"]["obs"], "ens": k["replay"]["ens"], "tag": "recorded-finding"})
     cases, outs, terms = [], [], []
     for i in range(len(corpus) + ncases):
         case = corpus[i] if i < len(corpus) else gen_case(rng, ctx.thorough)
         case.setdefault("tag", "corpus")
         case.setdefault("kind", "corpus")
         cm.mark({"call": "metrics.crps", "case": case})
-        out = run_impl(case["obs"], case["ens"])
+        out = run_impl(case["obs"], case["ens"], case.get("obsform", "flat"))
         cases.append(case)
         outs.append(out)
         terms.append(term(case, out))
@@ -294,8 +316,19 @@ def run(ctx):
                         "tag": case["tag"], "decomposition": None if out is None else out[0]})
     bad, nshards, failed = cm.run_case_files(PID, HEADER, "crcase", "cr_ok", terms,
                                              shard=ctx.scale(90, 300), max_bytes=1200000)
+    drift = []
+    if bad and not failed:
+        # second chance for the disagreeing cases only: equal up to 1e-11 relative
+        # (a re-associated floating sum in the code is not a disagreement; it is counted)
+        bad2, _, failed2 = cm.run_case_files(PID, HEADER, "crcase", "cr_ok_close",
+                                             [terms[i] for i in bad], shard=90, max_bytes=1200000)
+        if not failed2:
+            still = {bad[j] for j in bad2}
+            drift = [i for i in bad if i not in still]
+            bad = sorted(still)
     ctx.notes["correspondence_cases"] = len(terms)
     ctx.notes["correspondence_mismatches"] = len(bad)
+    ctx.notes["rounding_drift_cases"] = len(drift)
     ctx.notes["correspondence_compared"] = "5 decomposition values + 7*(m+1) table values, bit-exact (f_same); ValueError class"
     for k in range(nshards):
         ctx.obligation(f"Cases_{PID}_{k}.agree (model = implementation on the shard)", True)
@@ -308,6 +341,15 @@ def run(ctx):
             orc_fail.add(i)
             ctx.failure(key, {"obs": case["obs"], "ens": case["ens"],
                               "output": None if out is None else dict(zip(NAMES, out[0]))}, what)
+        if case.get("expected") and case.get("tolerance") is not None:
+            # replayed metamorphic variant: compare with the recorded expectation
+            want = [case["expected"][k] for k in NAMES]
+            if out is None or not all(abs(a - b) <= case["tolerance"] for a, b in zip(out[0], want)):
+                orc_fail.add(i)
+                ctx.failure("C03/crps/replayed-variant",
+                            {"obs": case["obs"], "ens": case["ens"], "expected": case["expected"],
+                             "output": None if out is None else dict(zip(NAMES, out[0]))},
+                            "replayed variant still differs from the expected decomposition")
         for key, what, obs2, ens2, want, tol in variants(rng, case, out):
             nvar += 1
             cm.mark({"call": "metrics.crps", "obs": obs2, "ens": ens2})
